@@ -341,6 +341,8 @@ INVALID = {
     "wrong-value-type": (["root", "pkg", "iface"], inj_wrong_type),
     "packages-wrong-type": (["root"], inj_wrong_type_packages),
 }
+NOPAIR = {"boilerplate-file-unreadable", "cyclic-templated-value-noop-formatter", "cyclic-templated-value-two-keys-noop-formatter",
+          "schema-required-key-no-template-data", "schema-required-key-empty-template-data"}
 # the include/exclude regexes only matter when the package is not `all` and has unlisted interfaces
 REGEX_CLASSES = {"invalid-include-regex", "invalid-exclude-regex"}
 
@@ -733,7 +735,9 @@ def body(ctx, replay=None):
                     cases.append({"kind": "invalid", "class": cls, "level": l, "alone": alone})
         cases += unusual_cases()
         if ctx.tier == "thorough":
-            names = sorted(INVALID)
+            # classes that also change an auxiliary setting (formatter: noop, another template) can neutralise a second fault whose
+            # detection relies on the default of that setting: they are injected alone / inside the valid configuration only
+            names = sorted(n for n in INVALID if n not in NOPAIR)
             for i in range(300):
                 a, b = ctx.rng.sample(names, 2)
                 if "config-not-yaml" in (a, b):
